@@ -84,19 +84,39 @@ async fn run_authz(ops: &[String], model: &mut Option<ModelProc>) -> Result<Case
             // it is not refused when it asks the very same question (same permission, resource and caller context)
             if head == "auth" && (got.starts_with("ok allow") || got.starts_with("ok require_approval")) {
                 let t: Vec<&str> = op.split(' ').collect();
-                if let Some(n) = got.split(' ').find_map(|x| x.strip_prefix("used=kip:delegation:")).and_then(|n| n.parse::<usize>().ok())
-                    && let Some(dor) = rf.delegator_to_reask(t[1], n)
-                {
-                    let mut q = t.clone();
-                    q[2] = dor.as_str();
-                    q[6] = "-";
-                    let asked = q.join(" ");
-                    let theirs = authz::apply(&nexus, &asked).await;
-                    out.hits.push("oracle:delegator-reasked".into());
-                    if theirs.starts_with("ok deny") {
+                if let Some(n) = got.split(' ').find_map(|x| x.strip_prefix("used=kip:delegation:")).and_then(|n| n.parse::<usize>().ok()) {
+                    // monotone attenuation: every Principal up the chain (nearest first) is asked the very same question
+                    for dor in rf.ancestors_to_reask(t[1], n) {
+                        let mut q = t.clone();
+                        q[2] = dor.as_str();
+                        q[6] = "-";
+                        let asked = q.join(" ");
+                        let theirs = authz::apply(&nexus, &asked).await;
+                        out.hits.push("oracle:delegator-reasked".into());
                         let mut ctx = ops[..=i].to_vec();
-                        ctx.push(asked);
-                        out.failures.push(("authz:delegate-allowed-where-its-delegator-is-denied".into(), format!("{} lets {} do what {} itself is refused", format!("kip:delegation:{n}"), t[2], dor), ctx, "the delegator is not refused the same request".into(), format!("delegate: {got} | delegator: {theirs}")));
+                        ctx.push(asked.clone());
+                        if theirs.starts_with("ok deny") {
+                            out.failures.push(("authz:delegate-allowed-where-its-delegator-is-denied".into(), format!("kip:delegation:{n} lets {} do what {} (a link above it) is itself refused", t[2], dor), ctx, "no Principal up the chain is refused the same request".into(), format!("delegate: {got} | ancestor: {theirs}")));
+                            break;
+                        }
+                        // an ancestor whose ONLY authority is its link answers with that link's constraints: the delegate's must stay inside
+                        if theirs.starts_with("ok allow") && rf.sole_authority(t[1], &dor) {
+                            let cons_of = |ans: &str| ans.split(' ').find_map(|x| x.strip_prefix("cons=")).unwrap_or("").to_string();
+                            let (mine, anc) = (cons_of(&got), cons_of(&theirs));
+                            let field = |c: &str, k: &str| c.split(';').filter_map(|p| p.split_once('=')).find(|(kk, _)| *kk == k).map(|(_, v)| v.to_string()).unwrap_or("-".into());
+                            let (fa, fm) = (wire::csv(&field(&anc, "f")), wire::csv(&field(&mine, "f")));
+                            let mask_ok = fa.is_empty() || (!fm.is_empty() && fm.iter().all(|x| fa.contains(x)));
+                            let rank = |l: &str| match l { "public" => 0, "internal" => 1, "private" => 2, "sensitive" => 3, "secret" => 4, _ => 255 };
+                            let (ca_, cm_) = (field(&anc, "mc"), field(&mine, "mc"));
+                            let ceil_ok = ca_ == "-" || (cm_ != "-" && rank(&cm_) <= rank(&ca_));
+                            let (ra_, rm_) = (field(&anc, "mr"), field(&mine, "mr"));
+                            let res_ok = ra_ == "-" || (rm_ != "-" && rm_.parse::<u64>().unwrap_or(u64::MAX) <= ra_.parse::<u64>().unwrap_or(0));
+                            let exp_ok = field(&anc, "x") == "1" || field(&mine, "x") == "0";
+                            if !(mask_ok && ceil_ok && res_ok && exp_ok) {
+                                out.failures.push(("authz:delegate-less-constrained-than-its-delegator".into(), format!("kip:delegation:{n} lets {} act under wider constraints (field mask / ceiling / max_results / export) than {}, whose only authority is the link above", t[2], dor), ctx, format!("constraints inside {anc}"), format!("delegate: {got} | ancestor: {theirs}")));
+                                break;
+                            }
+                        }
                     }
                 }
             }
